@@ -28,7 +28,7 @@ def kruns(rid, entry, mode='SEQ', extra=None, cls='shape-complete', note=''):
     out = []
     for k in (1, 2, 3, 5, 8):
         d = {'XV_K': k}; d.update(extra or {})
-        out.append(dict(id='%s_k%d' % (rid, k), entry=entry, mode=mode, defs=d, unwind=k + 2, cls=cls,
+        out.append(dict(id='%s_k%d' % (rid, k), entry=entry, mode=mode, defs=d, unwind=k + 2, cls=cls, solver=['--sat-solver', 'cadical'],
                         tiers=['thorough'] if k == 8 else ['quick', 'thorough'], note=note or 'K=%d slots; loops over slots unwound K+1 times with unwinding assertions' % k))
     return out
 RUNS = [dict(id='slot', entry='h_slot', defs={'XV_K': 3}, unwind=5, cls='unbounded', note='slot word operations are loop-free; K only sizes the monitor arrays')]
